@@ -165,6 +165,89 @@ def replay (j : Json) : R Verdict := do
   | none => pure ()
   if (fieldD stats "dupInflight").getBool?.toOption == some true then
     pf := ("C05", "one individual was being evaluated twice at the same time") :: pf
+  -- per-round scan: stop requests, failures, the return value
+  let mut stopRound : Option Nat := none        -- first round whose stimulus was an abort request or a failure
+  let mut firstFail : Option Nat := none        -- error code of a failure taken before any abort request
+  let mut sawAbort := false
+  let mut termReq := false                      -- a termination request was taken while the run was still going
+  let mut allItems : List (Nat × Nat × Option Int) := []
+  let mut allStarts : List ObsStart := []
+  let mut retFinal : Json := Json.null
+  let mut rn := 0
+  for rd in rounds do
+    match rd.getObjVal? "obs" with
+    | .error _ => pure ()
+    | .ok obs =>
+      let starts := ((fieldD obs "starts").getArr?.toOption.getD #[]).toList.filterMap (fun x => (parseStart x).toOption)
+      let items := ((fieldD obs "items").getArr?.toOption.getD #[]).toList.filterMap (fun x => (parseItem x).toOption)
+      let evs := ((fieldD rd "events").getArr?.toOption.getD #[]).toList.filterMap (fun x => (parseEv x).toOption)
+      for e in evs do
+        match e with
+        | .abort => if stopRound.isNone then stopRound := some rn
+                    sawAbort := true
+                    if retFinal.isNull then termReq := true
+        | .complete _ (.fail k) =>
+          if stopRound.isNone then stopRound := some rn
+          if !sawAbort && firstFail.isNone then firstFail := some k
+          sawAbort := true
+        | _ => pure ()
+      match stopRound with
+      | some k => if rn ≥ k && !starts.isEmpty then
+          pf := ("C04", s!"round {rn}: {starts.length} evaluation(s) started after a termination request or failure was taken (round {k})") :: pf
+          if firstFail.isSome then pf := ("C06", s!"round {rn}: evaluation started after a failure") :: pf
+      | none => pure ()
+      allItems := allItems ++ items
+      allStarts := allStarts ++ starts
+      if !(fieldD obs "ret").isNull then retFinal := fieldD obs "ret"
+    rn := rn + 1
+  let accItems := allItems.filterMap (fun (i, sd, x) => x.map (fun v => (v, i, sd)))
+  let nRej := (allItems.filter (fun (_, _, x) => x.isNone)).length
+  -- C06: the first failure (before any termination request) is the run's result
+  match firstFail with
+  | some k =>
+    if !retFinal.isNull && retFinal.compress != (Json.mkObj [("err", k)]).compress then
+      pf := ("C06", s!"first failure had code {k} but the run returned {retFinal.compress}") :: pf
+  | none => pure ()
+  -- C14 / C02 / C04 on a success report
+  match retFinal.getObjVal? "ok" with
+  | .ok okj =>
+    let a := (fieldD okj "acc").getNat?.toOption.getD 0
+    let rj := (fieldD okj "rej").getNat?.toOption.getD 0
+    if a != accItems.length || rj != nRej then
+      pf := ("C14", s!"report counts {a}/{rj}, processed evaluations {accItems.length} accepted / {nRej} rejected") :: pf
+    if ss == 1 then
+      let best := (fieldD okj "best").getInt?.toOption.getD 0
+      let bv := (fieldD okj "value").getStr?.toOption.getD ""
+      match accItems with
+      | [] => pf := ("C02", "success report without any accepted evaluation") :: pf
+      | (x0, i0, s0) :: rest =>
+        let (mx, mi, _) := rest.foldl (fun (bx, bi, bs) (x, i, sd) => if x < bx || (x == bx && i < bi) then (x, i, sd) else (bx, bi, bs)) (x0, i0, s0)
+        if best != mx then pf := ("C02", s!"reported best {best} is not the minimum {mx} of the accepted evaluations") :: pf
+        else if !(allStarts.any (fun st => st.v == bv && accItems.any (fun (x, i, _) => x == mx && i == st.id))) then
+          pf := ("C02", s!"reported best-seen value {bv} was not evaluated with the minimum result") :: pf
+      match cfg.target with
+      | some t => if accItems.any (fun (x, _, _) => F64.le (.fin x) t) && !(F64.le (.fin best) t) then
+          pf := ("C04", "an accepted evaluation reached the target but the reported best is above it") :: pf
+      | none => pure ()
+  | .error _ => pure ()
+  if retFinal.compress == "\"noIndividuals\"" && !accItems.isEmpty then
+    if ss == 1 then
+      pf := ("C02", "run ended with NoIndividuals although an evaluation was accepted") :: ("C04", "run ended with NoIndividuals although an evaluation was accepted") :: pf
+    else if firstFail.isNone && termReq then
+      pf := ("C04", s!"KF1 sample size {ss}: run ended with NoIndividuals although {accItems.length} evaluation(s) were accepted (no individual completed its sample)") :: pf
+  -- C08 on the observed hand-outs
+  let ids := allStarts.map (·.id)
+  for st in allStarts do
+    if allStarts.any (fun o => o.id == st.id && o.v != st.v) then
+      pf := ("C08", s!"individual {st.id} was evaluated with two different parameter sets") :: pf
+    if ss ≥ 1 && ids.count st.id > ss then
+      pf := ("C08", s!"individual {st.id} was evaluated {ids.count st.id} times, sample size {ss}") :: pf
+  match allStarts.head?, initV with
+  | some st, some v0 => if st.seed != 0 || st.id != 0 || st.v != v0 then
+      pf := ("C08", s!"first evaluation is (seed {st.seed}, id {st.id}, {st.v}), expected the initial value {v0}") :: pf
+  | _, _ => pure ()
+  -- C11: a rejected guess must not lead to any evaluation
+  if initV.isNone && !allStarts.isEmpty then pf := ("C11", "evaluation started although the initial guess was rejected") :: pf
   let kind := match pf, r.verdict with
     | _ :: _, _ => "PROPFAIL"
     | [], some (k, _) => k
@@ -173,6 +256,7 @@ def replay (j : Json) : R Verdict := do
     | (_, w) :: _, _ => w
     | [], some (_, w) => w
     | [], none => ""
-  return { case, kind, props := pf.map (·.1), what, tags := r.tags, size := r.nEvents }
+  return { case, kind, props := (pf.map (·.1)).eraseDups, what, tags := r.tags, size := r.nEvents,
+           fails := pf.map (fun (p, w) => p ++ ": " ++ w) }
 
 end Driver.CtlReplay
